@@ -796,6 +796,7 @@ fn classify<T>(r: std::thread::Result<Result<T, ErrInfo>>) -> (CallRes, Option<T
         Err(_) => {
             let (msg, loc) = LAST_PANIC.with(|p| p.borrow().clone());
             if msg.contains(BUDGET_MSG) {
+                truncate_for_budget();
                 (CallRes::Budget, None)
             } else if msg.starts_with("HARNESS:") {
                 eprintln!("harness error: {msg} at {loc}");
@@ -842,7 +843,7 @@ fn emit(
 
 pub fn run_scenario(sc: &Scenario, out: &mut dyn Write) {
     let c = &sc.cfg;
-    let budget = sc.budget.unwrap_or(3_000_000);
+    let budget = sc.budget.unwrap_or(400_000);
     let kind = match c.model.as_str() {
         "none" => "xport",
         _ if sc.calls.first().and_then(|v| v.get("name")).and_then(|v| v.as_str()) == Some("model_init") => "modelinit",
@@ -886,8 +887,8 @@ pub fn run_scenario(sc: &Scenario, out: &mut dyn Write) {
         let mut x = Map::new();
         if name == "init" {
             let r = catch_unwind(AssertUnwindSafe(|| build_display(c)));
-            let ops = end_call();
             let (res, built) = classify(r);
+            let ops = end_call();
             let obs = match &built {
                 Some(d) => d.obs(),
                 None => json!({}),
@@ -899,14 +900,14 @@ pub fn run_scenario(sc: &Scenario, out: &mut dyn Write) {
             }
         } else if name == "model_init" {
             let r = catch_unwind(AssertUnwindSafe(|| model_init_direct(c, &mut x)));
-            let ops = end_call();
             let (res, _) = classify(r);
+            let ops = end_call();
             emit(out, sc.id, i, &name, call, &res, json!({}), x, ops);
         } else {
             let o = obj.as_mut().expect("HARNESS: no object (missing init?)");
             let r = catch_unwind(AssertUnwindSafe(|| o.call(&name, call, &mut x)));
-            let ops = end_call();
             let (res, _) = classify(r);
+            let ops = end_call();
             let obs = match catch_unwind(AssertUnwindSafe(|| o.obs())) {
                 Ok(v) => v,
                 Err(_) => json!({"obs_panic": true}),
